@@ -237,3 +237,14 @@ CHECKS["C19"] = dict(
     assumptions=E1_ASSUME,
     units=[dict(pkg="app", test="TestVerifC19Bus", shards_quick=16, shards_thorough=16, budget_quick=100, budget_thorough=1500)],
 )
+
+CHECKS["C08"] = dict(
+    level="model_checking",
+    engine="seqx",
+    rule="all event sequences up to the completed depth over {fire A / fire B / resolve A on every live instance, advance 4s/12s/31s, isolate am0 / am2, cut am0<->am1, heal, crash am0 / am1} on 3, 2 and 1 real app instances with clustering on, joined by the real memberlist over an in-memory network with a fault transport (link matrix), 25s settle phase and 4m tail; states = distinct delivery traces; transitions = events",
+    technique="bounded-exhaustive event/fault-sequence exploration of the assembled cluster implementation (real memberlist in a virtual-time bubble) with union trace monitors",
+    level_text="At least once: the C01/C05 obligations hold on the union of what the non-crashed instances (and crashed ones before their crash) delivered, under every explored pattern of partitions, isolation and crashes, as long as one instance stays up. No duplicates when healthy: with all links up and no crash every notification in the union is justified w.r.t. the previous one (C04 monitor on the union) and only the first-positioned instance sends.",
+    level_note="memberlist's own random choices (peer selection order, probe targets) are not enumerated: with <= 3 members every gossip round addresses all others; faults are link-level per phase, not per packet. peer_timeout 5s, gossip interval 500ms, bounds extended by (N-1) x peer_timeout + 30s settle slack.",
+    assumptions=FAPP_ASSUME + ["instances share one virtual clock (agreeing clocks, as the property assumes)", "a crash is modelled as: all links dead for good and later deliveries discarded; the process is stopped for real only at tear-down"],
+    units=[dict(pkg="app", test="TestVerifC08", shards_quick=16, shards_thorough=16, budget_quick=150, budget_thorough=1800)],
+)
